@@ -27,6 +27,26 @@ def gen_script(rng, malformed=False):
     return lines
 
 
+def enum_scripts(depth):
+    """every op sequence of `depth` lines over: one constant, one unary and one binary function, clone, force, drop
+    with every choice of live operands; each followed by a force of every surviving handle, twice over"""
+    out = []
+    def rec(lines, live, nh):
+        if len(lines) == depth:
+            tail = [f"force {h}" for h in live]
+            out.append(lines + tail + tail); return
+        rec(lines + ["new c 2"], live + [nh], nh + 1)
+        for h in live:
+            rec(lines + [f"new app 1 {h}"], live + [nh], nh + 1)
+            rec(lines + [f"clone {h}"], live + [nh], nh + 1)
+            rec(lines + [f"force {h}"], live, nh)
+            if len(live) > 1: rec(lines + [f"drop {h}"], [x for x in live if x != h], nh)
+            for g in live:
+                rec(lines + [f"new app2 1 {h} {g}"], live + [nh], nh + 1)
+    rec([], [], 0)
+    return out
+
+
 def compare(scripts):
     text = "".join("\n".join(s) + "\n---\n" for s in scripts)
     hl, ml, rc, herr = run_pair("lazy", text)
@@ -83,6 +103,9 @@ def check(tier, seed):
     rng = random.Random(seed * 131 + 17)
     n = 1500 if tier == "quick" else 60000
     scripts = [gen_script(rng) for _ in range(n)] + [gen_script(rng, malformed=True) for _ in range(n // 10)]
+    nrand = len(scripts)
+    small = enum_scripts(4 if tier == "quick" else 5)
+    scripts += small
     bad, hl = compare(scripts)
     ops = {}
     for s in scripts:
@@ -91,7 +114,9 @@ def check(tier, seed):
             ops[key] = ops.get(key, 0) + 1
     nbad = sum(1 for l in hl if l == "bad-op")
     info = {"level": "L-lazy (real Lazy with counting thunks that force the lazies they captured vs Model/LazyHeap.lean: value and per-cell run counters after every force; malformed stream: both sides must refuse the same lines)",
-            "scripts": len(scripts), "disagreements": len(bad), "op_distribution": ops, "refused_lines": nbad, "sample": " ; ".join(scripts[0])}
+            "scripts": len(scripts), "random_scripts": nrand, "exhaustive_small_scope_scripts": len(small),
+            "small_scope": f"every sequence of {4 if tier == 'quick' else 5} operations (constant / unary / binary thunk over every choice of live handles, clone, force, drop), then every surviving handle forced twice",
+            "disagreements": len(bad), "op_distribution": ops, "refused_lines": nbad, "sample": " ; ".join(scripts[0])}
     hit = impl_predicate(scripts, hl)
     info["impl_thunk_rerun_or_unstable_value"] = 1 if hit else 0
     if hit:
